@@ -32,6 +32,8 @@ Round 7: slot names assigned instead of accumulated in the builder's loop (loop_
 enumerate-indexed hook calls.
 Round 8: field.init completes the keyword dict for its own field only; class accessors return the
 builder's own lists, never an entry of the user's __bisturi__ dict.
+Round 9: the protocol methods of the descriptor, and decorators around them, keep no deciding
+state on the (per-class, shared) descriptor object.
 """
 import ast
 
